@@ -124,6 +124,14 @@ def r3(ctx: Ctx, rid: str) -> None:
                    nontrivial=False)
     if n_put < 3:
         raise AnalysisError(f"S3LockProvider has {n_put} put_object sites, expected create/takeover/renew")
+    ta = ctx.fn("lock_provider.S3LockProvider._try_acquire")
+    tag = ctx.cfg(ta)
+    tcalls = [n for n in tag.calls() if any(t.name == "_try_takeover_expired" for t in ctx.eff.callees(ta, n))]
+    returned = [n for n in tcalls if isinstance(n.stmt, ast.Return)]
+    ctx.ob(rid, ta, "taking over an expired lock IS acquiring it (the takeover's result is _try_acquire's result)",
+           tcalls[0] if tcalls else None, bool(returned),
+           "if the takeover happens elsewhere and its result is dropped, acquire() can never succeed after a holder died: the table "
+           "accepts no commit until manual cleanup")
     tk = ctx.fn("lock_provider.S3LockProvider._try_takeover_expired")
     g = ctx.cfg(tk)
     sl = ctx.slicer(tk)
@@ -231,6 +239,11 @@ def r4(ctx: Ctx) -> None:
         bad = [r for r in rets if not (isinstance(r.ast.value, ast.Constant) and r.ast.value.value is False)]  # type: ignore[union-attr]
         ctx.ob("C19.R4", ih, "errors never report ownership", hn, not bad and not ex["raise"],
                "transport errors / unknown ownership -> False (fail closed)", text=",".join(handler_classes(hn.ast)))  # type: ignore[arg-type]
+    for r in [n for n in g.nodes if n.kind == "return" and n.id in g.reachable()]:
+        v = r.ast.value  # type: ignore[union-attr]
+        ctx.ob("C19.R4", ih, "is_held returns a decided constant", r, isinstance(v, ast.Constant) and isinstance(v.value, bool),
+               f"`{r.text}`: falling back to the process-local flag when ownership could not be read reports a lock that may have been "
+               "taken over (the fence must answer False when ownership is unknown)", nontrivial=False)
     guard = [b for b in g.nodes if b.kind == "branch" and norm_text(b.ast) == "self.is_locked"]
     ctx.ob("C19.R4", ih, "not locked -> False without I/O", guard[0] if guard else None, bool(guard), "local flag short-circuit", nontrivial=False)
     for q in ("lock_provider.S3LockProviderBase.acquire",):
@@ -293,6 +306,12 @@ def r5(ctx: Ctx, rid: str = "C19.R5") -> None:
     ctx.ob(rid, rel, "release unlocks / closes the descriptor", None,
            bool(ctx.calls(rel, prim="os.close")) and (bool(ctx.calls(rel, prim="fcntl.flock")) or bool(ctx.calls(rel, prim="msvcrt.locking"))),
            "LOCK_UN + close", nontrivial=False)
+    llp = ctx.prog.cls("lock_provider.LocalLockProvider")
+    for m in llp.methods.values():
+        direct = [n for n in ctx.cfg(m).calls() if n.callee and n.callee.kind == "prim" and n.callee.name in
+                  ("os.unlink", "os.remove", "shutil.rmtree", "method.unlink", "os.rename", "os.replace")]
+        ctx.ob(rid, m, f"LocalLockProvider.{m.name} never removes / renames the lock file", direct[0] if direct else None, not direct,
+               "flock synchronises on the inode: the path must keep naming the same inode for every contender", nontrivial=False, text=m.name)
     sr = ctx.fn("lock_provider.S3LockProviderBase.release")
     sg = ctx.cfg(sr)
     sl = ctx.slicer(sr)
